@@ -46,17 +46,16 @@ def scratch(prefix="verif-"):
 _built = {}
 
 
-def build_harness(race=False):
-    """go build -tags verif of the harness against /repo's CURRENT working tree."""
-    key = "race" if race else "plain"
+def build_harness(race=False, cmd="vreplay"):
+    """go build -tags verif of harness/cmd/<cmd> against /repo's CURRENT working tree."""
+    key = cmd + ("-race" if race else "")
     if key in _built:
         return _built[key]
     os.makedirs(BIN, exist_ok=True)
     shutil.copy(os.path.join(REPO, "go.sum"), os.path.join(HARNESS, "go.sum"))
-    out = os.path.join(BIN, "vreplay-race" if race else "vreplay")
-    cmd = ["go", "build", "-tags", "verif"] + (["-race"] if race else []) + ["-o", out, "./cmd/vreplay"]
-    t0 = time.time()
-    p = subprocess.run(cmd, cwd=HARNESS, env=goenv(), capture_output=True, text=True)
+    out = os.path.join(BIN, key)
+    argv = ["go", "build", "-tags", "verif"] + (["-race"] if race else []) + ["-o", out, "./cmd/" + cmd]
+    p = subprocess.run(argv, cwd=HARNESS, env=goenv(), capture_output=True, text=True)
     if p.returncode != 0:
         raise Infra("harness build failed (does /repo still compile with -tags verif?):\n" + p.stdout + p.stderr)
     _built[key] = out
